@@ -19,6 +19,37 @@ pub const FAULT_KINDS: [&str; 12] = [
     "number-copy",
 ];
 
+/// Digit runs after `/Prev` and after `startxref`.
+fn find_offsets(img: &[u8]) -> (Vec<(usize, usize)>, Vec<(usize, usize)>) {
+    let mut out = (Vec::new(), Vec::new());
+    for (key, which) in [(&b"/Prev"[..], 0), (&b"startxref"[..], 1)] {
+        let mut i = 0;
+        while i + key.len() <= img.len() {
+            if &img[i..i + key.len()] == key {
+                let mut j = i + key.len();
+                while j < img.len() && (img[j] == b' ' || img[j] == b'\n' || img[j] == b'\r') {
+                    j += 1;
+                }
+                let s0 = j;
+                while j < img.len() && img[j].is_ascii_digit() {
+                    j += 1;
+                }
+                if j > s0 {
+                    if which == 0 {
+                        out.0.push((s0, j));
+                    } else {
+                        out.1.push((s0, j));
+                    }
+                }
+                i = j.max(i + 1);
+            } else {
+                i += 1;
+            }
+        }
+    }
+    out
+}
+
 /// Positions of `N G R` reference tokens: (start of N, end of N, preceded by /Length).
 fn find_refs(img: &[u8]) -> Vec<(usize, usize, bool)> {
     let mut out = Vec::new();
@@ -108,6 +139,16 @@ pub fn apply_fault(ctx: &Ctx, img: &mut Vec<u8>, older: Option<&[u8]>, hot: &[(u
             if let Some(q) = (p..len.min(p + 64)).find(|&i| img[i].is_ascii_digit()) {
                 img[q] = b'0' + ctx.draw(F, 10, "digit") as u8;
             }
+        }
+        "ref-retarget" if find_offsets(img).0.len() >= 1 && ctx.chance(F, 1, 4, "retarget-prev") => {
+            // the same kind of damage on a cross-reference offset: a Prev value that now names this
+            // very section, a later one, or the start of the file (Prev cycles)
+            let (prevs, starts) = find_offsets(img);
+            let (s, e) = prevs[ctx.draw(F, prevs.len() as u64, "prev-which") as usize];
+            let mut pool: Vec<Vec<u8>> = prevs.iter().chain(starts.iter()).map(|&(a, b)| img[a..b].to_vec()).collect();
+            pool.push(b"0".to_vec());
+            let val = pool[ctx.draw(F, pool.len() as u64, "prev-to") as usize].clone();
+            img.splice(s..e, val);
         }
         "ref-retarget" => {
             // a corrupted digit run inside a reference that happens to name another object of the
